@@ -81,6 +81,8 @@ type Format struct {
 	CreatedIn  bool   `json:"created_in,omitempty"` // "created by f in goroutine N"
 	NoFinalEOL bool   `json:"no_final_eol,omitempty"`
 	TrailBlank bool   `json:"trail_blank,omitempty"` // blank line after the last goroutine
+	// IndentBlank: the blank lines between goroutines carry the indentation too (a filter that indents every line).
+	IndentBlank bool `json:"indent_blank,omitempty"`
 }
 
 // Dump is an abstract goroutine dump.
@@ -226,6 +228,9 @@ func (d *Dump) RenderSpans() ([]byte, []int) {
 	for gi := range d.Gs {
 		g := &d.Gs[gi]
 		if gi > 0 {
+			if d.F.IndentBlank {
+				b.WriteString(ind)
+			}
 			b.WriteString(eol)
 		}
 		spans = append(spans, b.Len())
@@ -346,6 +351,8 @@ var Names = []string{
 	"glob..func1", "(*T).M-fm", "T.M-fm", "(*T).M.func1", "F[...]", "(*T[...]).M", "T[...].M", "F[...].func1", "gopanic",
 	"goexit", "_Cfunc_x", "_cgoexp_0123abc_Go", "func·001", "Ünï", "(*Ünï).Mëth", "(*conn).serve", "(*Server).Serve",
 	"Foo.bar.Baz", "(*T).M.deferwrap1", "f.gowrap1", "f.func1.gowrap2", "x.(*y).z", "type..eq.T", "(*T).M.jump3",
+	// names with spaces: methods promoted through anonymous struct types, generated equality functions
+	"(*struct { sync.Mutex; n int }).Lock", "struct { A interface {}; B string }.String", "eq.struct { A interface {}; B string }", "F[struct { x int }]",
 }
 
 // CNames are symbols without any dot (C code, old runtimes).
@@ -604,6 +611,7 @@ func GenDump(r *core.Rand, cfg *Cfg, fmtIdx int) *Dump {
 	}
 	d.F.NoFinalEOL = r.Chance(1, 10)
 	d.F.TrailBlank = r.Chance(1, 4)
+	d.F.IndentBlank = d.F.Indent != "" && r.Chance(1, 3)
 	ng := 1
 	switch r.Intn(8) {
 	case 0:
